@@ -276,6 +276,17 @@ func (e *SpecEnv) ident(name string, old bool) Term {
 	if g, ok := e.tx.cs.Ghosts[name]; ok {
 		return e.tx.h.ghostTerm(e.state(old), name, g.Sort)
 	}
+	if e.tx.c != nil {
+		for _, cp := range e.tx.c.Captures {
+			if cp.Name == name {
+				if t, ok := e.state(old).ghost["cap!"+name]; ok {
+					return t
+				}
+				z := map[string]string{"Iface": "(mk-iface 0 0)", "Int": "0", "Bool": "false", "Slice": "(mk-slice 0 0 0 0)", "Real": "0.0"}[cp.Sort]
+				return Term{S: z, Sort: cp.Sort}
+			}
+		}
+	}
 	if e.pkg != nil {
 		if obj := e.pkg.Scope().Lookup(name); obj != nil {
 			switch o := obj.(type) {
